@@ -12,7 +12,7 @@ import shutil
 import sys
 from pathlib import Path
 
-from sim import boot, rng as R, workload, cvcase, driver
+from sim import boot, rng as R, workload, cvcase, driver, hyprun
 
 boot.boot()
 
@@ -465,7 +465,8 @@ def apply_ops(ctx, ops):
     return sim
 
 
-def make_machine(ctx_factory, trace_box, stats_box):
+def make_machine(ctx_factory, trace_box, stats_box, log=None):
+    log = log or hyprun.HistoryLog()
     pn = st.sampled_from(PNAMES)
 
     class Machine(RuleBasedStateMachine):
@@ -473,13 +474,17 @@ def make_machine(ctx_factory, trace_box, stats_box):
             super().__init__()
             self.ctx = ctx_factory()
             self.sim = Sim(self.ctx)
-            self.trace = []
+            self.trace = log.new_trace()
             trace_box[0] = self.trace
             stats_box.append(self.sim)
 
         def do(self, op):
             self.trace.append(list(op))
-            self.sim.apply(op)
+            try:
+                self.sim.apply(op)
+            except Violation as v:
+                log.note(v)
+                raise
 
         @initialize(ref=st.sampled_from(['A', 'B']), p=pn, symlink=st.sampled_from([False, False, False, True]),
                     flag=st.sampled_from([False, False, False, True]))
@@ -542,23 +547,19 @@ def run_case(seed, task, tier):
         def factory():
             counter[0] += 1
             return Ctx(refs, Path(wd) / f'h{counter[0]}')
-        machine = make_machine(factory, trace_box, stats_box)
+        log = hyprun.HistoryLog()
+        machine = make_machine(factory, trace_box, stats_box, log)
         hs = R.derive(seed, ENGINE, idx, 'hyp') % (2 ** 32)
         viol = None
-        try:
-            run_state_machine_as_test(
-                hseed(hs)(machine),
-                settings=settings(max_examples=n_examples, stateful_step_count=12, database=None, deadline=None,
-                                  report_multiple_bugs=False, suppress_health_check=list(HealthCheck),
-                                  verbosity=Verbosity.quiet))
-        except Violation as v:
-            viol = v
+        res = hyprun.run(machine, hs, n_examples, 12, log, Violation)
+        if res is not None:
+            viol_kind, viol = res
         if viol is not None:
             rep = {'property': PROPERTY, 'engine': ENGINE, 'clause': viol.clause, 'signature': viol.signature,
                    'detail': viol.detail, 'seed': seed, 'case': idx, 'hclass': task['hclass'],
-                   'hashseed': driver.HASH_CLASSES[task['hclass']], 'refs': refs, 'ops': trace_box[0],
-                   'shrunk_by': 'hypothesis'}
-            rep['digest'] = R.digest([seed, idx, viol.clause, trace_box[0]])
+                   'hashseed': driver.HASH_CLASSES[task['hclass']], 'refs': refs}
+            rep.update(hyprun.report_fields(viol_kind, log, trace_box[0]))
+            rep['digest'] = R.digest([seed, idx, viol.clause, rep['ops']])
             out['violations'].append(rep)
     states, transitions = set(), set()
     for sim in stats_box:
@@ -586,10 +587,13 @@ def aggregate(seed, tier, results):
 
 def replay(rep):
     with cvcase.Scratch('c12r_') as wd:
-        ctx = Ctx(rep['refs'], Path(wd) / 'h')
-        try:
-            apply_ops(ctx, rep['ops'])
-        except Violation as v:
+        n = [0]
+
+        def run_history(ops):
+            n[0] += 1
+            apply_ops(Ctx(rep['refs'], Path(wd) / f'h{n[0]}'), ops)
+        v = hyprun.replay_with_histories(rep, run_history, Violation)
+        if v is not None:
             return [dict(rep, clause=v.clause, signature=v.signature, detail=v.detail)]
     return []
 
@@ -597,4 +601,4 @@ def replay(rep):
 def shrink_candidates(rep):
     ops = rep['ops']
     for i in range(len(ops) - 1, 0, -1):
-        yield dict(rep, ops=ops[:i] + ops[i + 1:])
+        yield dict(rep, ops=ops[:i] + ops[i + 1:], histories=None)
